@@ -26,11 +26,12 @@ const (
 	zzLGetLoad
 	zzLComputeCancel
 	zzLComputeIfAbsentCancel
+	zzLGetEntry
 	zzLN
 	zzLAutoRemove = 100 // not chosen: an automatic removal reported by OnAtomicDeletion, entered into the history at that instant
 )
 
-var zzLNames = []string{"Set", "SetIfAbsent", "GetIfPresent", "ComputeInc", "ComputeIfAbsent", "Invalidate", "ComputeIfPresentInc", "GetLoad", "ComputeCancel", "ComputeIfAbsentCancel"}
+var zzLNames = []string{"Set", "SetIfAbsent", "GetIfPresent", "ComputeInc", "ComputeIfAbsent", "Invalidate", "ComputeIfPresentInc", "GetLoad", "ComputeCancel", "ComputeIfAbsentCancel", "GetEntry"}
 
 type zzLOp struct {
 	kind, key, arg int
@@ -78,7 +79,7 @@ func zzLApply(st *zzLState, o *zzLOp) (rv int, rok bool, wrote bool) {
 		}
 		m[k], has[k] = o.arg, true
 		return o.arg, true, true
-	case zzLGet, zzLComputeCancel, zzLComputeIfAbsentCancel:
+	case zzLGet, zzLGetEntry, zzLComputeCancel, zzLComputeIfAbsentCancel:
 		// a cancelled computation reads like a lookup: the present value, or nothing
 		if has[k] {
 			return m[k], true, false
@@ -208,6 +209,10 @@ func zzLRun(c *Cache[int, int], clk *zzTick, o *zzLOp) {
 		o.rv, o.rok = c.SetIfAbsent(o.key, o.arg)
 	case zzLGet:
 		o.rv, o.rok = c.GetIfPresent(o.key)
+	case zzLGetEntry:
+		var e Entry[int, int]
+		e, o.rok = c.GetEntry(o.key)
+		o.rv = e.Value
 	case zzLComputeInc:
 		o.rv, o.rok = c.Compute(o.key, func(old int, found bool) (int, ComputeOp) {
 			o.cbCalls++
